@@ -13,6 +13,8 @@ func main() {
 		"files": func(f []string) string { return configs.VerifFiles(verifio.KV(f)) },
 		"sec":   func(f []string) string { return configs.VerifSecrets(verifio.KV(f)) },
 		"det":   func(f []string) string { return configs.VerifDet(verifio.KV(f)) },
+		"fc":    func(f []string) string { return configs.VerifFailClosed(verifio.KV(f)) },
+		"fctls": func(f []string) string { return configs.VerifFailClosedTLS(verifio.KV(f)) },
 		"rel":   func(f []string) string { return configs.VerifReload(verifio.KV(f)) },
 	})
 }
